@@ -160,6 +160,44 @@ fn oracle(store: &Arc<Store>, intern: &mut Interner, unresolved: &Merge<TreeId>,
     out
 }
 
+fn file(c: usize) -> V {
+    V::File { c, x: false, cp: 0 }
+}
+fn dir(entries: &[(u8, V)]) -> V {
+    V::Dir(entries.iter().cloned().collect())
+}
+fn tree(entries: &[(u8, V)]) -> T {
+    entries.iter().cloned().collect()
+}
+
+/// Fixed corpus, always run first. Indices 0 and 1: the inputs on which
+/// MergedTree::resolve was not idempotent before /repo commit 4915e33 (the final
+/// simplification cancels the two file sides of a file/directory conflict and leaves an
+/// all-directory conflict that a further merge resolves).
+fn corpus(i: usize) -> Option<(bool, bool, Vec<Vec<T>>)> {
+    match i {
+        0 => {
+            let a = tree(&[(0, dir(&[(0, file(8))])), (1, file(9))]);
+            let b = tree(&[(0, file(10)), (1, file(9))]);
+            let c = tree(&[(0, file(10)), (1, file(11))]);
+            let d = tree(&[(1, file(11))]);
+            let e = tree(&[(0, dir(&[(1, file(1))])), (1, file(0))]);
+            Some((false, false, vec![vec![a], vec![b], vec![c], vec![d], vec![e]]))
+        }
+        1 => {
+            // shape of the random case that exposed it (seed 7, index 3158, thorough tier)
+            let fx = V::File { c: 8, x: true, cp: 0 };
+            let t1 = tree(&[(0, dir(&[(0, fx.clone()), (1, file(8))])), (1, V::Sub(0)), (2, V::Link(0))]);
+            let t2 = tree(&[(1, V::Sub(0)), (2, V::Link(0))]);
+            let t3 = tree(&[(0, file(9)), (1, V::Sub(0)), (2, V::Link(0))]);
+            let t4 = tree(&[(0, file(9)), (1, file(10)), (2, V::Link(0))]);
+            let t6 = tree(&[(0, dir(&[(0, fx)])), (1, V::Sub(0)), (2, V::Link(0))]);
+            Some((true, false, vec![vec![t1], vec![t2, t3, t4], vec![t6]]))
+        }
+        _ => None,
+    }
+}
+
 fn gen_inputs(rng: &mut Rng) -> (Vec<Vec<T>>, &'static str) {
     let names = rng.range(2, 4) as u8;
     let depth = rng.range(0, 2) as u32;
@@ -256,9 +294,14 @@ fn main() {
             .collect();
         for i in ctx.indices() {
             let mut rng = ctx.rng(i);
-            let accept = rng.chance(2, 3);
-            let labeled = rng.chance(1, 3);
-            let (inputs, kind) = gen_inputs(&mut rng);
+            let mut accept = rng.chance(2, 3);
+            let mut labeled = rng.chance(1, 3);
+            let (mut inputs, mut kind) = gen_inputs(&mut rng);
+            if ctx.tier != "replay-random" {
+                if let Some((a, l, inp)) = corpus(i) {
+                    (accept, labeled, inputs, kind) = (a, l, inp, "corpus");
+                }
+            }
             let mut probes = vec![];
             for inner in &inputs {
                 for t in inner {
@@ -274,7 +317,8 @@ fn main() {
             let store1 = repos[2 + accept as usize].repo.store().clone();
             let o = run_on(&store, &inputs, labeled, &probes);
             // the simple backend (concurrency 1) cannot store submodules
-            let agree = inputs.iter().flatten().any(has_sub) || {
+            let cross = ctx.tier == "thorough" || i % 3 == 0;
+            let agree = !cross || inputs.iter().flatten().any(has_sub) || {
                 let o1 = run_on(&store1, &inputs, labeled, &probes);
                 dump_outcome(&store, &o) == dump_outcome(&store1, &o1)
             };
@@ -334,9 +378,10 @@ fn main() {
             );
             let arity = o.unresolved.iter().count();
             let conflicted_paths = o.values.iter().filter(|(_, v)| !v.is_resolved()).count();
+            let kind = if arity >= 5 && kind != "corpus" { "any" } else { kind };
             let shape = format!(
                 "{kind} arity={} {}{}",
-                arity.min(9),
+                arity.min(7),
                 match &o.merged {
                     None => "panic",
                     Some(m) if m.is_resolved() => "resolved",
